@@ -7,6 +7,7 @@ unsigned int CAP_N, CAP_M; unsigned long ALLOC_MAX;
 Elem *WP[NW + 1]; int WS[NW + 1];
 Elem *WB; int WBL; unsigned long WBN; int WBA;
 unsigned long alloc_calls, dealloc_calls, gen_calls; unsigned int used_kinds;
+const Elem *S_CUR, *S_END; int S_DEREF_DONE; const Elem *F_END;
 
 #define FORALLW(X) X (0) X (1) X (2)
 #define FORNW(X)   X (0) X (1)
@@ -359,4 +360,91 @@ Elem *env_swap_ranges__pE_pE_pE (Elem *first, Elem *last, Elem *first2)
   FORALLW (SR_NEW)
   if (threw) THROW (EXC_ELEMENT);
   return first2 + done;
+}
+
+/* ---- caller's iterators (C15): protocol violations are failed preconditions ------------------------ */
+#define ITER_THROW() if (ITER_MAY_THROW && nondet_bool ()) { THROW (EXC_ITERATOR); }
+
+_Bool env_op_eq__pcII_pcII (const struct InputIt *a, const struct InputIt *b)
+{
+  __CPROVER_assert ((a->cur == S_CUR || a->cur == S_END) && (b->cur == S_CUR || b->cur == S_END), "[C15] comparison uses a copy of an input iterator that was already advanced");
+  if (ITER_MAY_THROW && nondet_bool ()) { THROW (EXC_ITERATOR); return nondet_bool (); }
+  return a->cur == b->cur;
+}
+
+const Elem *env_op_deref__pII (struct InputIt *it)
+{
+  __CPROVER_assert (it->cur == S_CUR, "[C15] dereference of a copy of an input iterator that was already advanced");
+  __CPROVER_assert (it->cur != S_END, "[C15] input iterator dereferenced at or beyond last");
+  __CPROVER_assert (!S_DEREF_DONE, "[C15] a position of a single-pass range is dereferenced twice");
+  if (ITER_MAY_THROW && nondet_bool ()) { THROW (EXC_ITERATOR); return it->cur; }
+  S_DEREF_DONE = 1;
+  return it->cur;
+}
+
+struct InputIt *env_op_inc__pII (struct InputIt *it)
+{
+  __CPROVER_assert (it->cur == S_CUR, "[C15] increment of a copy of an input iterator that was already advanced");
+  __CPROVER_assert (it->cur != S_END, "[C15] input iterator advanced at or beyond last");
+  __CPROVER_assert (S_DEREF_DONE, "[C15] a position of a single-pass range is skipped without being read");
+  if (ITER_MAY_THROW && nondet_bool ()) { THROW (EXC_ITERATOR); return it; }
+  S_CUR = S_CUR + 1; it->cur = S_CUR; S_DEREF_DONE = 0;
+  return it;
+}
+
+_Bool env_op_eq__pcFI_pcFI (const struct FwdIt *a, const struct FwdIt *b)
+{
+  if (ITER_MAY_THROW && nondet_bool ()) { THROW (EXC_ITERATOR); return nondet_bool (); }
+  return a->cur == b->cur;
+}
+
+const Elem *env_op_deref__pFI (struct FwdIt *it)
+{
+  __CPROVER_assert (SAMEOBJ (it->cur, F_END) && OFF (it->cur) < OFF (F_END), "[C15] forward iterator dereferenced at or beyond last");
+  if (ITER_MAY_THROW && nondet_bool ()) { THROW (EXC_ITERATOR); return it->cur; }
+  return it->cur;
+}
+
+struct FwdIt *env_op_inc__pFI (struct FwdIt *it)
+{
+  __CPROVER_assert (SAMEOBJ (it->cur, F_END) && OFF (it->cur) < OFF (F_END), "[C15] forward iterator advanced beyond last");
+  if (ITER_MAY_THROW && nondet_bool ()) { THROW (EXC_ITERATOR); return it; }
+  it->cur = it->cur + 1;
+  return it;
+}
+
+long env_distance__FI_FI (struct FwdIt first, struct FwdIt last)
+{
+  __CPROVER_assert (SAMEOBJ (first.cur, last.cur) && OFF (first.cur) <= OFF (last.cur) && SAMEOBJ (last.cur, F_END) && OFF (last.cur) <= OFF (F_END), "[C15] std::distance on a forward range whose last is not reachable from first");
+  if (ITER_MAY_THROW && nondet_bool ()) { THROW (EXC_ITERATOR); return 0; }
+  return last.cur - first.cur;
+}
+
+void env_advance__pFI_l (struct FwdIt *it, long n)
+{
+  __CPROVER_assert (n >= 0 && SAMEOBJ (it->cur, F_END) && OFF (it->cur) + ((unsigned long) n << ESZ_LOG2) <= OFF (F_END), "[C15] forward iterator advanced beyond last");
+  if (ITER_MAY_THROW && nondet_bool ()) { THROW (EXC_ITERATOR); return; }
+  it->cur = it->cur + n;
+}
+
+Elem *env_copy__FI_FI_pE (struct FwdIt first, struct FwdIt last, Elem *d)
+{
+  __CPROVER_assert (SAMEOBJ (first.cur, last.cur) && OFF (first.cur) <= OFF (last.cur) && SAMEOBJ (last.cur, F_END) && OFF (last.cur) <= OFF (F_END), "[C15] std::copy on a forward range whose last is not reachable from first");
+  unsigned long n = DIVESZ (OFF (last.cur) - OFF (first.cur));
+  return d + range_assign (d, first.cur, n, 0, 0, ASSIGN_COPY_MAY_THROW || ITER_MAY_THROW, K_ASSIGN_COPY);
+}
+
+/* generator: the k-th call yields the abstract value GEN_BASE + k */
+int GEN_BASE;
+void env_op_call__pG_out (struct Gen *g, Elem *out)
+{
+  (void) g;
+  const Elem *src = 0; Elem *p = out;
+  req_storage_w (p);
+  FORALLW (REQ_RAW1)
+  if (nondet_bool ()) { THROW (EXC_GENERATOR); return; }
+  int v = GEN_BASE + (int) gen_calls;
+  if (v == S_RAW || v == S_MF) v = 0;
+  gen_calls++;
+  FORALLW (SET1)
 }
